@@ -379,7 +379,10 @@ def main():
                 notes.append("slice %s timed out (not a verdict)" % x["args"][-1]); env_error = True; continue
             if x["hrc"] != 0 or x["drc"] != 0 or s is None:
                 log("pipeline error: harness rc=%s driver rc=%s\n%s\n%s" % (x["hrc"], x["drc"], x["herr"], x["derr"]))
-                env_error = True; continue
+                env_error = True
+                if s is None: continue
+            if "truncated_after_too_many_aborts" in x["herr"]:
+                notes.append("slice %s stopped after 40 aborted cases (each reported)" % x["args"][-1])
             for y in r: y["variant"] = variant; y["bin"] = binp
             all_r += r; sums.append(s)
             m = re.search(r"alloc_faults_fired=(\d+)", x["herr"])
